@@ -1130,6 +1130,9 @@ class PDFPageInterpreter:
                 raise PDFInterpreterError("No font specified!")
             return
         assert self.ncs is not None
+        if not isinstance(seq, (list, tuple)):
+            log.warning(f"Cannot show text because {seq!r} is not an array")
+            return
         self.device.render_string(
             self.textstate,
             cast(PDFTextSeq, seq),
